@@ -30,8 +30,12 @@ def run(ctx):
     def relevant(case, dv):
         return case["group"] in ("budget", "budget-probe", "cut", "cut-full") and dv["field"] in (
             "writes", "nodes", "engine-panic", "model-setup", "engine-setup-panic")
+    def internal(case, dv):
+        # what the property fixes is judged on the engine alone (no write after the cut, no write with the flag clear or over budget,
+        # every interrupted trace a prefix of the uninterrupted one); the exact trace of the model is a correspondence
+        return dv["field"] in ("writes", "nodes", "model-setup")
     r = SP.corr(ctx, prop, ("budget", "cut"), relevant, "cache writes of an interrupted search differ from the model", violations, cov,
-            engine_checks=engine_checks)
+            engine_checks=engine_checks, internal=internal)
     # C13_prefix on the engine itself: the writes of every interrupted run are an initial segment of the
     # writes of the same search left uninterrupted (key, score, depth, bound, move, node counter)
     if r:
